@@ -75,16 +75,22 @@ def reset (s : Sketch) : Sketch :=
   let table := s.table.map (fun (w : BitVec 64) => (w >>> 1) &&& Gen.SketchMix.resetMask)
   { s with table := table, size := (s.size - (BitVec.ofNat 64 count >>> 2)) >>> 1 }
 
+/-- the unrolled body of `increment`: one incrementAt per position, `added` is the disjunction of the results -/
+def bumpAll (ps : List (BitVec 64 × BitVec 64)) (acc : Sketch × Bool) : Sketch × Bool :=
+  ps.foldl (fun (acc : Sketch × Bool) p =>
+      ((incrementAt acc.1 p.1 p.2).1, (incrementAt acc.1 p.1 p.2).2 || acc.2)) acc
+
+/-- `size` counts the calls that added to at least one counter -/
+def finishNR (r : Sketch × Bool) : Sketch := if r.2 then { r.1 with size := r.1.size + 1 } else r.1
+
+/-- `increment` without the aging step (what happens within one sampling period) -/
+def incrementNR (s : Sketch) (blockHash : BitVec 64) : Sketch :=
+  if !s.initialized then s else finishNR (bumpAll (counterPosUnrolled s blockHash) (s, false))
+
 def incrementH (s : Sketch) (blockHash : BitVec 64) : Sketch :=
-  if !s.initialized then s
-  else
-    let (s, added) := (counterPosUnrolled s blockHash).foldl (fun (acc : Sketch × Bool) p =>
-      let (s', a) := incrementAt acc.1 p.1 p.2
-      (s', a || acc.2)) (s, false)
-    if added then
-      let s := { s with size := s.size + 1 }
-      if s.size == s.sampleSize then reset s else s
-    else s
+  let s' := incrementNR s blockHash
+  -- `size` changes exactly when a counter was added; the aging step runs when the sample is full
+  if s.initialized && (bumpAll (counterPosUnrolled s blockHash) (s, false)).2 && s'.size == s'.sampleSize then reset s' else s'
 
 /-- policy.admitDecision as a pure decision -/
 def admitDecision (candidateFreq victimFreq : BitVec 64) (rand : BitVec 32) : Bool :=
